@@ -166,4 +166,70 @@ theorem layerRun_dirs_shape (dest : Str) (o : Opts) : ∀ (es : List Entry) (st 
           · obtain ⟨e', he', hy'⟩ := hall y hy; exact ⟨e', by simp [he'], hy'⟩
           · simp only [List.mem_singleton] at hy; subst hy; exact ⟨e, by simp, hx⟩
 
+
+/-- an iteration never forgets a path it has unpacked -/
+theorem iterL_unpacked_mono (dest : Str) (o : Opts) (e : Entry) (st0 : LState) :
+    (layerIterP dest o e st0).All (fun r => ∀ st', r = .ok st' → ∀ s ∈ st0.unpacked, s ∈ st'.unpacked) := by
+  have hsame : ∀ st : LState, st.unpacked = st0.unpacked → ∀ st', (Except.ok st : Except (Out × LState) LState) = .ok st' →
+      ∀ s ∈ st0.unpacked, s ∈ st'.unpacked := by
+    intro st h st' h' s hs; cases h'; rw [h]; exact hs
+  have herr : ∀ (x : Out × LState) st', (Except.error x : Except (Out × LState) LState) = .ok st' →
+      ∀ s ∈ st0.unpacked, s ∈ st'.unpacked := by
+    intro _ st' h; cases h
+  simp only [layerIterP, layerTailP]
+  split
+  · exact hsame _ rfl
+  refine allB _ _ (P := fun (r : Except Out LState) => ∀ st, r = .ok st → st.unpacked = st0.unpacked) ?_ ?_
+  · unfold stageP
+    split
+    · refine allB _ _ (Prog.All.trivial _) ?_
+      intro mk _
+      split
+      · refine allB _ _ (Prog.All.trivial _) ?_
+        intro out _
+        split
+        · split
+          · refine allB _ _ (Prog.All.trivial _) ?_
+            intro _ _ st h; cases h
+          · intro st h; cases h
+        · intro st h; cases h; rfl
+      · intro st h; cases h
+    · intro st h; cases h; rfl
+  · intro stR hstR
+    cases stR with
+    | error out => exact herr _
+    | ok st =>
+      have hst : st.unpacked = st0.unpacked := hstR st rfl
+      simp only
+      repeat' first
+        | exact hsame _ hst
+        | exact herr _
+        | (refine allB _ _ (Prog.All.trivial _) ?_; intro _ _)
+        | exact (fun st' hst' s hs => by
+            cases hst'
+            show s ∈ _ :: st.unpacked
+            rw [hst]; exact List.mem_cons_of_mem _ hs)
+        | split
+
+theorem layerRun_unpacked_mono (dest : Str) (o : Opts) : ∀ (es : List Entry) (st : LState) (w : World) (st' : LState)
+    (w' : World), layerRun dest o es st w = (.ok st', w') → ∀ s ∈ st.unpacked, s ∈ st'.unpacked
+  | [], st, w, st', w', h => by
+    simp only [layerRun] at h
+    injection h with h1 _
+    injection h1 with h1
+    subst h1
+    exact fun s hs => hs
+  | e :: es, st, w, st', w', h => by
+    simp only [layerRun] at h
+    have ha := Prog.All.run _ w (iterL_unpacked_mono dest o e st)
+    cases hr : (layerIterP dest o e st).run w with
+    | mk r w1 =>
+      rw [hr] at h ha
+      cases r with
+      | error x => simp only at h; cases h
+      | ok s1 =>
+        simp only at h
+        intro s hs
+        exact layerRun_unpacked_mono dest o es s1 w1 st' w' h s (ha s1 rfl s hs)
+
 end GA
